@@ -214,7 +214,15 @@ def tokens(s, rng, features):
         items.append(('tie', ['[tie'] + [ref(c) for c in s['tie']]))
         features.add('tie')
     if s.get('undeclared'):
-        items.append(('und', ['[undeclared'] + [ref(c) for c in s['undeclared']]))
+        und = list(s['undeclared'])
+        if len(und) >= 2 and rng.random() < 0.5:
+            # the write-ins listed on several [undeclared ...] items (each item adds to the set, as [withdrawn ...] items do)
+            k = rng.randint(1, len(und) - 1)
+            items.append(('und', ['[undeclared'] + [ref(c) for c in und[:k]]))
+            items.append(('und', ['[undeclared'] + [ref(c) for c in und[k:]]))
+            features.add('undeclared-in-several-items')
+        else:
+            items.append(('und', ['[undeclared'] + [ref(c) for c in und]))
         features.add('undeclared')
     if s.get('options'):
         items.append(('droop', ['[droop'] + list(s['options'])))
